@@ -63,7 +63,7 @@ func (paths *Paths) Validate(ctx context.Context, opts ...ValidationOption) erro
 		if oldPath, ok := normalizedPaths[normalizedPath]; ok {
 			return fmt.Errorf("conflicting paths %q and %q", path, oldPath)
 		}
-		normalizedPaths[path] = path
+		normalizedPaths[normalizedPath] = path
 
 		var commonParams []string
 		for _, parameterRef := range pathItem.Parameters {
